@@ -349,10 +349,32 @@ pub fn check(c: &Case) -> Verdict {
             return Verdict::Inconclusive("target did not settle between two requests".into());
         }
     }
-    let mut dest = Dest::new(vec![], 0);
+    // the destination may already hold something and stand behind it (a caller-written prefix, an earlier
+    // dump in the same file): the image a reader finds there - from the start position on - is judged
+    let (prefill, p0): (Vec<u8>, u64) = match (h >> 20) % 5 {
+        0 => (vec![0x5a; 1], 1),
+        1 => (vec![0x5a; 100], 100),
+        2 => (vec![0x5a; 4096 + ((h >> 24) % 64) as usize], 4096),
+        _ => (vec![], 0),
+    };
+    let mut dest = Dest::new(prefill.clone(), p0);
     let out = run_dump(&mut w, &mut dest);
     let img = match out {
-        DumpOutcome::Ok(v) => v,
+        DumpOutcome::Ok(v) => {
+            let stored = dest.data();
+            if stored.len() < p0 as usize || stored[..p0 as usize] != prefill[..p0 as usize] {
+                return Verdict::viol("C01:destination:bytes-before-the-image-modified", format!("the {p0} bytes before the start position were modified"));
+            }
+            // what the file holds is the image; the returned copy must be the same bytes
+            if stored[p0 as usize..] != v[..] {
+                let on_disk = md::decode(&stored[p0 as usize..]);
+                if let Some(p) = md::structural_problems(&on_disk, Some(18)).first() {
+                    return Verdict::viol(format!("C01:destination:{}", p.sig), format!("image found at the destination's start position {p0}: {}", p.detail));
+                }
+                return Verdict::viol("C01:destination:differs-from-returned-image", format!("the image stored from position {p0} on ({} bytes) is not the returned image ({} bytes)", stored.len() - p0 as usize, v.len()));
+            }
+            v
+        }
         DumpOutcome::Err(e) => {
             let tag = e.split('(').next().unwrap_or("").to_string();
             if std::env::var("VERIF_DEBUG").is_ok() {
@@ -381,6 +403,9 @@ pub fn check(c: &Case) -> Verdict {
     classes.push(format!("options:{n_opts}"));
     if d.dirs.iter().any(|e| e.stream_type == 0) {
         classes.push("has-unused-entry".into());
+    }
+    if p0 != 0 {
+        classes.push("destination-positioned-behind-existing-content".into());
     }
     let nt = (c.threads.len() >= 2 && named > 0 && unnamed > 0) || n_opts >= 3 || !opts.user_mappings.is_empty() || !opts.app_memory.is_empty();
     Verdict::pass_c(if nt { Some(fp_json(c)) } else { None }, classes)
@@ -516,7 +541,7 @@ pub fn run(ctx: &mut LaneCtx) {
         SubSpec {
             name: "live-structure",
             cases: (1_600, 60_000),
-            rule: "generated target processes (main + 0..63 threads: parked/spinner/sleeper/null-sp, names unset/UTF-8/non-UTF-8, custom stacks with sp in stack/guard/hole) x extra mappings x 0..40 open descriptors x writer options (crash context with boundary rip/rsp, size limit none/tiny/threshold+-1/huge, sanitize, skip-unreferenced, app memory, user mappings, direct auxv); successful images are decoded strictly (18 entries, exact stream sizes, all RVAs, no overlap); non-trivial = dump succeeded and (mixed named/unnamed threads, or >=3 options, or user mappings/app memory); distinct = hash of case",
+            rule: "generated target processes (main + 0..63 threads: parked/spinner/sleeper/null-sp, names unset/UTF-8/non-UTF-8, custom stacks with sp in stack/guard/hole) x extra mappings x 0..40 open descriptors x writer options (crash context with boundary rip/rsp, size limit none/tiny/threshold+-1/huge, sanitize, skip-unreferenced, app memory, user mappings, direct auxv); the destination is empty or positioned behind 1 / 100 / 4096 bytes of existing content, and the image found there is the one judged; successful images are decoded strictly (18 entries, exact stream sizes, all RVAs, no overlap); non-trivial = dump succeeded and (mixed named/unnamed threads, or >=3 options, or user mappings/app memory); distinct = hash of case",
             strategy: case_strategy(if ctx.tier == Tier::Quick { 24 } else { 64 }).boxed(),
             max_shrink_iters: 200,
             log_current: true,
